@@ -909,3 +909,63 @@ func EmptyLen(pred func(ssa.Value) bool) Atom {
 	l := IsLenOf(pred)
 	return AnyOf(Cmp(token.EQL, l, IsConstInt(0)), Cmp(token.LSS, l, IsConstInt(1)), Cmp(token.LEQ, l, IsConstInt(0)))
 }
+
+// ForwardField resolves a load of a field of a local struct allocation to the
+// value stored into that field, when the function stores to that field of that
+// allocation exactly once (through any FieldAddr of it) and never overwrites
+// the struct as a whole — or initialises the struct exactly once by copying
+// another local struct for which the same holds; otherwise it returns Forward(v).
+func ForwardField(v ssa.Value) ssa.Value {
+	v = Forward(v)
+	u, ok := Strip(v).(*ssa.UnOp)
+	if !ok || u.Op != token.MUL {
+		return v
+	}
+	fa, ok := u.X.(*ssa.FieldAddr)
+	if !ok {
+		return v
+	}
+	al, ok := fa.X.(*ssa.Alloc)
+	if !ok {
+		return v
+	}
+	if r := fieldOfLocal(al, fa.Field, 0); r != nil {
+		return r
+	}
+	return v
+}
+
+func fieldOfLocal(al *ssa.Alloc, field, depth int) ssa.Value {
+	if al.Referrers() == nil || depth > 4 {
+		return nil
+	}
+	var fieldStores, wholeStores []*ssa.Store
+	for _, r := range *al.Referrers() {
+		switch x := r.(type) {
+		case *ssa.FieldAddr:
+			if x.Field != field || x.Referrers() == nil {
+				continue
+			}
+			for _, rr := range *x.Referrers() {
+				if st, ok := rr.(*ssa.Store); ok && st.Addr == ssa.Value(x) {
+					fieldStores = append(fieldStores, st)
+				}
+			}
+		case *ssa.Store:
+			if x.Addr == ssa.Value(al) {
+				wholeStores = append(wholeStores, x)
+			}
+		}
+	}
+	switch {
+	case len(fieldStores) == 1 && len(wholeStores) == 0:
+		return Forward(fieldStores[0].Val)
+	case len(fieldStores) == 0 && len(wholeStores) == 1:
+		if u, ok := Strip(wholeStores[0].Val).(*ssa.UnOp); ok && u.Op == token.MUL {
+			if src, ok := u.X.(*ssa.Alloc); ok {
+				return fieldOfLocal(src, field, depth+1)
+			}
+		}
+	}
+	return nil
+}
